@@ -997,6 +997,68 @@ def c11f_facts(repo, sk, facts, notes):
 # ===== C11 repair block end =====
 
 
+# ===== C14/C15 block begin (RotatingSink size accounting and daily next point; add-only, owned by props/c14.py, props/c15.py) =====
+def rot_facts(repo, sk, facts, notes):
+    """which variant of M-ROT stands for the code.
+    rot_size_counts_written_bytes (C14, D10): RotatingSink::write_log neither hands log_statement.size() to
+    _size_rotation nor adds it to _file_size; both happen in the override before_stream_write(bytes, ..), which
+    StreamSink::write_log calls with exactly the byte count of the safe_fwrite that follows it (the json line of a
+    JsonSink, the result of before_write).
+    rot_daily_tomorrow_via_mktime (C15-daily-dst): _calculate_initial_rotation_tp sets tm_isdst = -1 with the daily
+    HH:MM and, when that instant is not ahead, in local time, takes tm_mday + 1 HH:MM:00 tm_isdst = -1 through
+    mktime (the + 24 h stays for GmtTime / as the fallback).
+    The skeletons are emitted so that TieC14.v / TieC15.v pin them to the text the model was written against."""
+    inc = os.path.join(repo, 'include', 'quill', 'sinks')
+    p = os.path.join(inc, 'RotatingSink.h')
+    try:
+        docs = run_clang('#include "quill/sinks/RotatingSink.h"\n', 'RotatingSink', repo)
+        tdocs = [d for d in docs if d.get('kind') == 'ClassTemplateDecl'] or docs
+        sk['rot_write_log'] = method_skeleton(tdocs, p, 'write_log') or []
+        sk['rot_before_stream_write'] = method_skeleton(tdocs, p, 'before_stream_write') or []
+        sk['rot_size_rotation'] = method_skeleton(tdocs, p, '_size_rotation') or []
+        sk['rot_initial_rotation_tp'] = method_skeleton(tdocs, p, '_calculate_initial_rotation_tp') or []
+    except Exception as e:
+        notes.append('rot_facts: RotatingSink.h: %s' % str(e)[:200])
+        for k in ('rot_write_log', 'rot_before_stream_write', 'rot_size_rotation', 'rot_initial_rotation_tp'):
+            sk.setdefault(k, [])
+    p2 = os.path.join(inc, 'StreamSink.h')
+    try:
+        docs2 = run_clang('#include "quill/sinks/StreamSink.h"\n', 'StreamSink', repo)
+        sk['rot_stream_write_log'] = method_skeleton(docs2, p2, 'write_log') or []
+    except Exception as e:
+        notes.append('rot_facts: StreamSink.h: %s' % str(e)[:200])
+        sk.setdefault('rot_stream_write_log', [])
+    w = [l.strip() for l in sk['rot_write_log']]
+    b = [l.strip() for l in sk['rot_before_stream_write']]
+    z = [l.strip() for l in sk['rot_size_rotation']]
+    st = [l.strip() for l in sk['rot_stream_write_log']]
+    def before(lines, a, bb):
+        """every line starting with bb is directly preceded by the line a(bb)"""
+        idx = [i for i, l in enumerate(lines) if l.startswith(bb)]
+        return bool(idx) and all(i > 0 and lines[i - 1] == a(lines[i]) for i in idx)
+    def hook_of(fw):
+        m = re.match(r'EXPR safe_fwrite\((\w+)\.data\(\), sizeof\(char\), (\w+)\.size\(\), _file\)$', fw)
+        return 'EXPR before_stream_write(%s.size(), log_timestamp)' % m.group(1) if (m and m.group(1) == m.group(2)) else None
+    facts['rot_size_counts_written_bytes'] = bool(
+        w and not any('log_statement.size()' in l or re.search(r'(?<!\w)_file_size\b', l) or re.search(r'(?<!\w)_size_rotation\(', l) for l in w)
+        and any(l == 'EXPR _check_size_rotation = !time_rotation && _config.rotation_max_file_size() != 0' for l in w)
+        and b == ['IF _check_size_rotation', 'EXPR _size_rotation(bytes, log_timestamp)', 'EXPR _file_size += bytes']
+        and z == ['IF _file_size + log_msg_size > _config.rotation_max_file_size()', 'EXPR _rotate_files(record_timestamp_ns)']
+        and before(st, hook_of, 'EXPR safe_fwrite('))
+    t = [l.strip() for l in sk['rot_initial_rotation_tp']]
+    def has_seq(lines, seq):
+        return any(lines[i:i + len(seq)] == seq for i in range(len(lines)))
+    hh = 'EXPR date.tm_hour = static_cast<decltype(date.tm_hour)>(config.daily_rotation_time().first.count())'
+    mm = 'EXPR date.tm_min = static_cast<decltype(date.tm_min)>(config.daily_rotation_time().second.count())'
+    facts['rot_daily_tomorrow_via_mktime'] = bool(
+        has_seq(t, [hh, mm, 'EXPR date.tm_sec = 0', 'EXPR date.tm_isdst = -1'])
+        and has_seq(t, ['IF (rotation_time <= time_now) && (config.timezone() != Timezone::GmtTime) && '
+                        '(config.rotation_frequency() == RotatingFileSinkConfig::RotationFrequency::Daily)',
+                        'EXPR date.tm_mday += 1', hh, mm, 'EXPR date.tm_sec = 0', 'EXPR date.tm_isdst = -1',
+                        'EXPR rotation_time = std::mktime(&date)']))
+# ===== C14/C15 block end =====
+
+
 def main():
     repo = REPO; out = os.path.join(os.path.dirname(os.path.abspath(__file__)), '..', 'coq', 'gen', 'SrcFacts.v')
     a = sys.argv[1:]
@@ -1016,6 +1078,7 @@ def main():
     c12_facts(repo, sk, facts, notes)   # C12 block
     reg_facts(repo, sk, facts, notes)   # C03 block
     c11f_facts(repo, sk, facts, notes)   # C11 repair block
+    rot_facts(repo, sk, facts, notes)   # C14/C15 block
     txt = emit(sk, facts, notes, os.path.normpath(out))
     if dump:
         for k in sorted(sk):
